@@ -101,3 +101,20 @@ Theorem C03_circle_complete : forall (radius : R) (segments : Z) (c : list (pt2 
 Proof.
   intros r s c Hs Hr Hc. split; [exact (circle_convex r s c Hs Hr Hc)|exact (circle_caps_complete r s c Hs Hr Hc)].
 Qed.
+
+(* ---- completion under a weaker hypothesis, and for the rounded rectangle ----
+   fanconv sigma p: at every vertex the triple previous, vertex, next is strictly oriented like sigma, and seen from the
+   last vertex all other vertices come in angular order (every pair of positions i < j < n-1 oriented like sigma). These
+   are the only triples the first-vertex-is-an-ear argument looks at and they survive the removal of the first vertex
+   (strict convexity implies them). Every rounded rectangle, centred or not, satisfies them in both vertex orders: seen
+   from its first and from its last vertex (both on the top side) every edge that does not touch the apex turns
+   clockwise and all other vertices lie strictly below. *)
+From SCAD Require Import Geom.Fan_convex Geom.RR_convex.
+Theorem C03_fanconv_complete : forall sigma (p : list (@vtx R)), fanconv sigma p -> (3 <= length p)%nat -> complete p.
+Proof. exact fanconv_complete. Qed.
+Theorem C03_convex_is_fanconv : forall sigma (p : list (@vtx R)), conv sigma p -> (3 <= length p)%nat -> fanconv sigma p.
+Proof. exact conv_fanconv. Qed.
+Theorem C03_rounded_rect_complete : forall (w h r : R) (segments : Z) (center : bool) pts,
+  (0 < r)%R -> (2 * r < w)%R -> (2 * r < h)%R -> (1 <= segments)%Z ->
+  rounded_rect w h r segments center = Some pts -> complete (enumerate pts) /\ complete (rev (enumerate pts)).
+Proof. exact rounded_rect_caps_complete. Qed.
